@@ -448,7 +448,7 @@ func c05Fields(m *c05Msg) []string {
 		}
 		return f
 	case "slc", "usc":
-		return []string{"turnstone", "relayer", "id", "contract", "payload", "fee-relayer", "fee-community", "fee-security", "sender", "deadline"}
+		return []string{"turnstone", "relayer", "id", "contract", "payload", "fee-relayer", "fee-community", "fee-security", "fees-all-zero", "sender", "deadline"}
 	case "up":
 		return []string{"id", "bytecode"}
 	case "ch":
@@ -516,6 +516,12 @@ func c05Mutate(r *Rec, m *c05Msg, field string) bool {
 		m.contract = c05FreshAddr(r, m.contract)
 	case "payload", "bytecode":
 		m.payload = c05FreshBytes(r, m.payload)
+	case "fees-all-zero":
+		// fees that are PRESENT and all zero are delivered as zeros - not as the defaults an absent fee record stands for
+		if m.fees != nil && m.fees.RelayerFee == 0 && m.fees.CommunityFee == 0 && m.fees.SecurityFee == 0 {
+			return false
+		}
+		m.fees = &evmtypes.Fees{}
 	case "fee-relayer", "fee-community", "fee-security":
 		if m.fees == nil { // explicit default triple first: same delivered values
 			m.fees = &evmtypes.Fees{RelayerFee: 100_000, CommunityFee: 100_000, SecurityFee: 100_000}
@@ -1086,8 +1092,10 @@ func c05Conflict(f, g string) bool {
 			return "p"
 		case strings.Contains(s, "call"):
 			return "c"
-		case strings.HasPrefix(s, "fee-"):
+		case strings.HasPrefix(s, "fee-"), s == "fees-all-zero":
 			return "f"
+		case s == "swap-members":
+			return "v" // moves validators and powers: not together with another change of either list
 		}
 		return s
 	}
